@@ -7,27 +7,14 @@ end
 (* ------------------------------------------------------------------ payout (C19: fee / insurance / emissions vault drawdowns) *)
 (* case: emprog emdec dep rate total fee0 ins0 t0 nops <op>*   (see harness/src/suites/payout.rs)
    out : initial state, then per op `<res> <state>` *)
-let one48 = Z.shift_left Z.one 48
 let suite_payout (line : string) : string =
   let t = toks_of_line line in
   let _emprog = ni t in let _emdec = ni t in
   let dep = nz t in let rate = nz t in let total = nz t in let fee0 = nz t in let ins0 = nz t in let t0 = nz t in
   let nops = ni t in
   let z0 = zi 0 in
-  let sh v = z_of_big (Z.mul (big_of_z v) one48) in
-  let ir = { M.ir_optimal = z0; ir_plateau = z0; ir_max = z0; ir_ins_fixed = z0; ir_ins_rate = z0; ir_grp_fixed = z0;
-             ir_grp_rate = z0; ir_zero = z0; ir_hundred = z0; ir_points = []; ir_curve_type = z0 } in
-  let u64max = z_of_big (Z.of_string "18446744073709551615") in
-  let bank = { M.b_asv = sh (zi 1); b_lsv = sh (zi 1); b_tas = sh dep; b_tls = z0; b_ins = z0; b_grp = z0; b_prog = z0;
-               b_last_update = t0; b_dep_limit = u64max; b_bor_limit = u64max; b_asset_tag = z0; b_decimals = zi 6;
-               b_flags = zi 2; b_em_rate = rate; b_em_rem = sh total; b_lend_cnt = zi 1; b_bor_cnt = z0;
-               b_op_state = zi 1; b_ir = ir } in
-  let bal = { M.bl_active = true; bl_bank = zi 1; bl_tag = z0; bl_a = sh dep; bl_l = z0; bl_em = z0; bl_last = t0 } in
   let ids = [10; 11; 12; 20; 1000; 1001; 1002] in
-  let toks = Stdlib.List.map (fun i -> { M.tk_key = zi i; tk_mint = (if i < 20 then M.coq_MINT_BANK else M.coq_MINT_EM); tk_amt = z0 }) ids in
-  let w = ref { M.y_admin = zi 1; y_auth = zi 2; y_aflags = z0; y_fee_dest = z0; y_em_wallet = z0;
-                y_fee_vault = fee0; y_ins_vault = ins0; y_em_vault = total; y_toks = toks; y_bank = bank; y_bal = bal;
-                y_now = t0; y_acct_last = t0 } in
+  let w = ref (M.pay_fixture dep rate total fee0 ins0 t0) in
   let state () =
     let w = !w in
     let base = [zs w.M.y_fee_vault; zs w.M.y_ins_vault; zs w.M.y_em_vault; zs w.M.y_fee_dest; zs w.M.y_em_wallet;
